@@ -13,6 +13,8 @@ import (
 	"encoding/binary"
 	"encoding/hex"
 	"fmt"
+	cpb "github.com/google/go-sev-guest/proto/check"
+	tcpb "github.com/google/go-tdx-guest/proto/checkconfig"
 	"io"
 	"math/big"
 	"os"
@@ -44,6 +46,12 @@ import (
 	"verifsim/worldp"
 	"verifsim/worlds"
 )
+
+// c07MaskPaths are the field paths `inspect mask` is asked for: scalars, bytes, messages, map and
+// list elements (present or not), several at once.
+var c07MaskPaths = [][]string{{"cert"}, {"digest"}, {"timestamp"}, {"sev_snp.measurements"}, {"sev_snp"}, {"tdx"}, {"sev_snp.measurements[2]"}, {"cl_spec", "commit"},
+	{"sev_snp.measurements[4294967295]"}, {"sev_snp.measurements[1]", "sev_snp.policy"}, {"tdx.measurements"}, {"tdx.measurements[0]"}, {"tdx.measurements[0].mrtd", "tdx.measurements[7].ram_gib"},
+	{"ca_bundle"}, {"sev_snp.svsm_measurement"}, {"digest", "digest"}, {"timestamp.seconds"}, {"no_such_field"}, {"sev_snp.measurements[x]"}, {""}}
 
 func init() {
 	core.Register(&core.Check{
@@ -188,9 +196,10 @@ func runC07(r *core.Run) {
 			ops, inputLen = o, len(e)
 			le := &epb.VMLaunchEndorsement{}
 			parsed := proto.Unmarshal(e, le) == nil
-			k := r.Intn(10, "endorsement-entry")
-			if !parsed && k >= 3 {
-				k = r.Intn(3, "endorsement-bytes-entry")
+			k := r.Intn(13, "endorsement-entry")
+			if !parsed && k >= 3 && k < 10 {
+				// entries 3-9 take a parsed message; 0-2 and the commands (10-12) take the bytes
+				k = []int{0, 1, 2, 10, 11, 12}[r.Intn(6, "endorsement-bytes-entry")]
 			}
 			switch k {
 			case 0:
@@ -210,11 +219,18 @@ func runC07(r *core.Run) {
 					gcetcbendorsement.TdxValidate(ctx, tdxRaw, &gcetcbendorsement.TdxValidateOptions{Endorsement: le, RootsOfTrust: roots, Now: now})
 				}
 			case 5:
-				name, call = "SevPolicy", func() {
-					gcetcbendorsement.SevPolicy(ctx, le, &gcetcbendorsement.SevPolicyOptions{LaunchVmsas: uint32(r.Intn(3, "policy-vmsas")), AllowUnspecifiedVmsas: true})
-				}
+				po := &gcetcbendorsement.SevPolicyOptions{LaunchVmsas: uint32(r.Intn(3, "policy-vmsas")), AllowUnspecifiedVmsas: r.Chance(75, "policy-allow-unspecified"),
+					Overwrite: r.Bool("policy-overwrite"), Base: c07SnpBase(r)}
+				name, call = "SevPolicy", func() { gcetcbendorsement.SevPolicy(ctx, le, po) }
 			case 6:
-				name, call = "TdxPolicy", func() { gcetcbendorsement.TdxPolicy(ctx, le, &gcetcbendorsement.TdxPolicyOptions{}) }
+				po := &gcetcbendorsement.TdxPolicyOptions{RAMGiB: []int{0, 0, 16, 1 << 40}[r.Intn(4, "policy-ram")], Overwrite: r.Bool("policy-overwrite")}
+				if r.Chance(40, "tdx-base?") {
+					po.Base = &tcpb.Policy{}
+					if r.Bool("tdx-base-body") {
+						po.Base.TdQuoteBodyPolicy = &tcpb.TDQuoteBodyPolicy{AnyMrTd: [][]byte{bytes.Repeat([]byte{1}, 48)}}
+					}
+				}
+				name, call = "TdxPolicy", func() { gcetcbendorsement.TdxPolicy(ctx, le, po) }
 			case 7:
 				name, call = "Inspect", func() {
 					ictx := gcetcbendorsement.WithInspect(ctx, &gcetcbendorsement.Inspect{Writer: gcetcbendorsement.NonterminalWriter{Writer: io.Discard}, Form: gcetcbendorsement.BytesForm(r.Intn(5, "form"))})
@@ -222,15 +238,44 @@ func runC07(r *core.Run) {
 					gcetcbendorsement.InspectSignature(ictx, le)
 				}
 			case 8:
-				paths := [][]string{{"cert"}, {"digest"}, {"timestamp"}, {"sev_snp.measurements"}, {"sev_snp"}, {"tdx"}, {"sev_snp.measurements[2]"}, {"cl_spec", "commit"}}[r.Intn(8, "mask")]
+				paths := c07MaskPaths[r.Intn(len(c07MaskPaths), "mask")]
 				name, call = "InspectMask", func() {
 					ictx := gcetcbendorsement.WithInspect(ctx, &gcetcbendorsement.Inspect{Writer: gcetcbendorsement.NonterminalWriter{Writer: io.Discard}, Form: gcetcbendorsement.BytesHexGuidify})
 					gcetcbendorsement.InspectMask(ictx, le, &fmpb.FieldMask{Paths: paths})
 				}
-			default:
-				name, call = "SevValidate/given", func() {
-					gcetcbendorsement.SevValidate(ctx, SnpAttestation(meas, nil), &gcetcbendorsement.SevValidateOptions{Endorsement: le, RootsOfTrust: roots, Now: now})
+			case 10, 11, 12:
+				// the inspect / policy commands of the gcetcbendorsement application read the bytes
+				// from a file and write to a destination that may or may not be a terminal
+				mio := newMemIO()
+				mio.Files["e.binarypb"] = e
+				mio.Terminal = r.Bool("terminal-output")
+				form := []string{"auto", "bin", "hex", "base64"}[r.Intn(4, "bytesform")]
+				var args []string
+				switch k {
+				case 10:
+					switch r.Intn(3, "inspect-cmd") {
+					case 0:
+						args = []string{"inspect", "signature", "e.binarypb", "--bytesform", form}
+					case 1:
+						args = []string{"inspect", "payload", "e.binarypb", "--bytesform", form}
+					default:
+						args = []string{"inspect", "mask", "e.binarypb", "--bytesform", form}
+						for _, p := range c07MaskPaths[r.Intn(len(c07MaskPaths), "mask")] {
+							args = append(args, "--path", p)
+						}
+					}
+				case 11:
+					args = []string{"sev", "policy", "e.binarypb", "--outform", append([]string{"textproto"}, form)[r.Intn(2, "outform")],
+						fmt.Sprintf("--launch_vmsas=%d", r.Intn(3, "policy-vmsas")), "--allow_unspecified_vmsas"}
+				default:
+					args = []string{"tdx", "policy", "e.binarypb", "--outform", append([]string{"textproto"}, form)[r.Intn(2, "outform")],
+						fmt.Sprintf("--ram_gib=%d", []int{0, 16, 1000}[r.Intn(3, "policy-ram")])}
 				}
+				name, call = "cli/"+args[0]+"-"+args[1], func() { runCLI(&gcmd.Backend{Getter: net, Now: now, IO: mio}, args...) }
+			default:
+				vo := &gcetcbendorsement.SevValidateOptions{Endorsement: le, RootsOfTrust: roots, Now: now, BasePolicy: c07SnpBase(r), Overwrite: r.Bool("policy-overwrite"),
+					ExpectedLaunchVmsas: uint32(r.Intn(3, "policy-vmsas"))}
+				name, call = "SevValidate/given", func() { gcetcbendorsement.SevValidate(ctx, SnpAttestation(meas, nil), vo) }
 			}
 		case 3, 4: // attestation in some container
 			base := attestations[r.Intn(len(attestations), "container")]
@@ -307,9 +352,16 @@ func runC07(r *core.Run) {
 			if r.Bool("log-via-file") {
 				p := filepath.Join(scratch, fmt.Sprintf("log%d", i))
 				os.WriteFile(p, l, 0o644)
-				name, call = "extract.Endorsement(event-log)", func() {
-					extract.Endorsement(&extract.Options{EventLogLocation: p, FirmwareManufacturer: "Google, Inc.", Getter: net, UEFIVariableReader: reader})
+				eo := &extract.Options{EventLogLocation: p, FirmwareManufacturer: "Google, Inc.", Getter: net, UEFIVariableReader: reader}
+				name = "extract.Endorsement(event-log)"
+				// a relying party configures only the sources it has: no variable reader, no getter
+				if r.Chance(15, "no-variable-reader?") {
+					eo.UEFIVariableReader, name = nil, name+"/no-variable-reader"
 				}
+				if r.Chance(15, "no-getter?") {
+					eo.Getter, name = nil, name+"/no-getter"
+				}
+				call = func() { extract.Endorsement(eo) }
 			} else {
 				mode := r.Intn(4, "chunk-mode")
 				name, call = "CryptoAgileLog.Unmarshal", func() {
@@ -352,9 +404,15 @@ func runC07(r *core.Run) {
 				name, call = "EfiVarFSReader.ReadVariable", func() { reader.ReadVariable(guid, loc) }
 			} else {
 				typ := uint32(r.Intn(5, "locator-type"))
-				name, call = "exel.Locate", func() {
-					exel.Locate(typ, loc, &exel.LocateOptions{Getter: net, UEFIVariableReader: reader})
+				lo := &exel.LocateOptions{Getter: net, UEFIVariableReader: reader}
+				name = "exel.Locate"
+				if r.Chance(15, "no-variable-reader?") {
+					lo.UEFIVariableReader, name = nil, name+"/no-variable-reader"
 				}
+				if r.Chance(15, "no-getter?") {
+					lo.Getter, name = nil, name+"/no-getter"
+				}
+				call = func() { exel.Locate(typ, loc, lo) }
 			}
 		}
 		// every entry point is called twice in a row on the same objects: the second call must be as
@@ -389,6 +447,20 @@ func runC07(r *core.Run) {
 // fieldMutate edits one or two fields of the golden measurement to boundary values (empty, short,
 // over-long, extreme numbers) and re-assembles the endorsement, either keeping the now invalid
 // signature or re-signing with the genuine key so the code behind the signature check is reached.
+// c07SnpBase draws the base policy a caller brings along: none, an empty one, one without the
+// guest-policy word, a complete one.
+func c07SnpBase(r *core.Run) *cpb.Policy {
+	switch r.Intn(5, "snp-base-policy") {
+	case 1:
+		return &cpb.Policy{}
+	case 2:
+		return &cpb.Policy{MinimumVersion: "0.0", MinimumGuestSvn: 1}
+	case 3:
+		return &cpb.Policy{MinimumVersion: "0.0", Policy: ProdPolicy, Measurement: bytes.Repeat([]byte{0xEE}, 48), FamilyId: bytes.Repeat([]byte{1}, 16)}
+	}
+	return nil
+}
+
 func fieldMutate(r *core.Run, a *Party, is *Issued) ([]byte, string) {
 	g := proto.Clone(is.Golden).(*epb.VMGoldenMeasurement)
 	var ops []string
